@@ -29,6 +29,7 @@ type frame struct {
 	retGuards []string
 	retStates []*State
 	retVals   [][]Term
+	retPos    []string
 	top       bool
 	oldState  *State
 	params    map[string]Term
@@ -421,6 +422,7 @@ func (c *FnCtx) execBlock(fr *frame, b *ssa.BasicBlock, st0 *State, g0 string) {
 				rs = append(rs, c.val(fr, r))
 			}
 			fr.retGuards = append(fr.retGuards, st.g)
+			fr.retPos = append(fr.retPos, c.curPos)
 			fr.retStates = append(fr.retStates, st)
 			fr.retVals = append(fr.retVals, rs)
 			fr.out[b] = st
@@ -575,8 +577,8 @@ func (c *FnCtx) loopHeader(fr *frame, b *ssa.BasicBlock, li *loopInfo, st *State
 	}
 	if all {
 		for k := range c.regSort {
-			if c.prof.isTracked(k) {
-				continue
+			if c.prof.isTracked(k) || strings.HasPrefix(k, "L_") {
+				continue // (private locals are written only by the stores collected above)
 			}
 			regs[k] = true
 		}
